@@ -920,7 +920,11 @@ func runC17(rc *RunCtx) {
 	var image []byte
 	m17 := t.Choose(8) // 1: fixed images (enumerated part), 7: command stage, else generated file
 	if m17 == 7 {
-		c17Command(rc, t)
+		if t.Choose(4) == 3 {
+			c17StdinError(rc, t)
+		} else {
+			c17Command(rc, t)
+		}
 		return
 	}
 	if m17 == 1 {
